@@ -888,7 +888,10 @@ static void RandomDag(vh::Ctx& c) {
 // ---------------------------------------------------------------- explicit rewrites
 static void Rewrites(vh::Ctx& c) {
   vh::Rng& r = c.rng;
-  const int fam = (int)(c.idx % 8);
+  // every block of 8 consecutive cases contains each family once; the rotation per block is
+  // pseudo-random so that a worker (cases w, w+W, w+2W, ...) does not get one family only
+  const unsigned block = (unsigned)(c.idx / 8);
+  const int fam = (int)((c.idx % 8 + ((block * 2654435761u) >> 13)) % 8);
   Dag d;
   CheckOpts o;
   o.leafTris = 4;
